@@ -81,6 +81,7 @@ class Host:
         self.file_pts, self.block_pts, self.nested_pts, self.expr_pts = [], [], [], []
         infunc = False
         instruct = False
+        sw_depth = None
         for i, ln in enumerate(self.lines):
             if not infunc:
                 if ln == "{":
@@ -101,13 +102,24 @@ class Host:
             else:
                 if ln == "}":
                     infunc = False
+                    sw_depth = None
                     self.block_pts.append(i)       # just before the closing brace of the body
                     continue
                 depth = len(ln) - len(ln.lstrip("\t"))
                 st = ln.strip()
-                if st.startswith("case ") or st.startswith("default:"):
-                    pass      # still a statement boundary
-                (self.block_pts if depth <= 1 else self.nested_pts).append(i)
+                # the labels and statements of a generated `switch` sit at the depth of the switch itself:
+                # they are nested statements (a `break;` or `case 1:;` there is valid)
+                if sw_depth is not None and depth == sw_depth and st.startswith("}"):
+                    sw_depth = None
+                    self.nested_pts.append(i)
+                    continue
+                if sw_depth is None and depth <= 1 and re.match(r"^switch \(.*\{$", st):
+                    self.block_pts.append(i)
+                    sw_depth = depth
+                    continue
+                # a line starting with '}' closes a nested statement: inserting before it lands inside that one
+                (self.block_pts if depth <= 1 and sw_depth is None and not st.startswith("}")
+                 else self.nested_pts).append(i)
                 if re.match(r"^\t+out\(\(long\)\(.*\)\);$", ln):
                     self.expr_pts.append(i)
         self.file_pts.append(len(self.lines))       # end of file
